@@ -36,11 +36,12 @@ def spec_grow(pages, delta, maxp):
 
 
 def linearizable(init, maxp, ops, rets, final_pages, schedule):
-    """Is there an order of the completed grows, consistent with real time as far as the schedule shows it
+    """Is there an order of the completed operations (grows AND size queries), consistent with real time as far as the schedule shows it
     (an op whose last segment precedes another's first segment comes first), that explains every return value
     and the final page count?  ops: list of ('g', delta) | ('s', 0); rets: list of int|None."""
-    grows = [i for i, (k, _) in enumerate(ops) if k == "g" and rets[i] is not None]
-    pending = [i for i, (k, _) in enumerate(ops) if k == "g" and rets[i] is None]
+    ops = [("g", d) if k == "g" else ("g", 0) for k, d in ops]     # memory.size = "grow by 0": returns the size, changes nothing
+    grows = [i for i, (k, _) in enumerate(ops) if rets[i] is not None]
+    pending = [i for i, (k, _) in enumerate(ops) if rets[i] is None]
     first = {}
     last = {}
     for pos, c in enumerate(schedule):
@@ -172,7 +173,7 @@ def run(tier):
     chk = vlib.Check(PROP, tier)
     chk.coverage["trusted_base"] = list(vlib.GLOBAL_TRUSTED) + [
         "pthread mutexes provide mutual exclusion and happens-before (POSIX); plain U32 reads/writes of descriptor "
-        "fields are single indivisible steps of the model (the C-level data race on `pages` is reported separately)",
+        "fields are single indivisible steps of the model",
         "tools/extract/gen_memfuncs.py flattens wasmMemoryGrow statement by statement (validated on every run: "
         "real function vs regenerated step list under identical schedules)",
         "tools/harness/grow_sched.c redirects pthread_mutex_lock/unlock by macro to a baton scheduler; the text of "
@@ -349,25 +350,67 @@ def run(tier):
                                  "< 65536): wasmMemoryAllocate(…, 65536, shared) itself still computes a U32 size of 0 "
                                  "(alloc_size_wraps_counterexample); an embedder calling it directly must not pass 65536")
 
-        # ---- (d) ThreadSanitizer, free-running (supporting test)
+        # ---- (d) memory.size: the generated code must call the locked header function; ThreadSanitizer, free-running,
+        #          growers and size readers on the real header functions (regression of fixed: ee826ee / 07872f3)
         if exe:
+            gexe = None
+            try:
+                import opmods
+                gexe, gtext = gs.build_generated(opmods.build_w2c2(repo, d), inc, os.path.join(d, "genmod"))
+                em = gs.emitted_statements(gtext)
+            except Exception as e:
+                em = {"error": str(e)[-300:]}
+            chk.coverage["emitted_for_shared_memory"] = em
+            chk.count_case(("emitted-memory.size",), True, {"case": "w2c2 on (memory 1 4 shared) memory.size / memory.grow", "real": em})
+            sz = em.get("memory.size")
+            if sz is not None and not sz.startswith("wasmMemorySize("):
+                chk.violation(
+                    "memory-size-unlocked-read-race",
+                    f"memory.size on a shared memory is emitted as `si0={sz};` — a plain read of the descriptor, not the locked "
+                    "header function wasmMemorySize: data race with a concurrent memory.grow (model: unlocked_size_read_would_race)",
+                    {"module": gs.size_module().hex(), "emitted": em, "args": ["stress", 1, 3000, 1],
+                     "replay_cmd": "python3 tools/check.py C18 --replay <this file>"}, True)
+            elif sz is None:
+                broken.append({"kind": "correspondence", "msg": f"could not find the statement emitted for memory.size: {em}"})
             try:
                 texe = gs.build(inc, d, "grow_tsan", ["-fsanitize=thread", "-DGROW_FREE_RUNNING"])
                 iters = 3000 if tier == "quick" else 60000
                 rc, o1, e1 = gs.run(texe, ["stress", 3, iters, 0], timeout=300)
-                rc, o2, e2 = gs.run(texe, ["stress", 1, iters, 1], timeout=300)   # ONE grower: the only other accessor of `pages` is the size reader
-                races1 = sorted(set(re.findall(r"w2c2_base\.h:(\d+)", e1)))
-                size_race = "memorySize" in e2 and "data race" in e2
-                chk.coverage["tsan"] = {"grow_only_race_lines": races1[:6], "grow_only_result": o1,
-                                        "with_size_readers_race": size_race, "with_size_readers_result": o2}
+                rc, o2, e2 = gs.run(texe, ["stress", 1, iters, 1], timeout=300)   # ONE grower: any race involves the size reader
+                rc, o3, e3 = gs.run(texe, ["stress", 3, iters, 3], timeout=300)
+                if gexe:      # the same through the code w2c2 generates (f0 = memory.size, f1 = memory.grow)
+                    rc, o4, e4 = gs.run(gexe, [1, iters, 1], timeout=300)
+                    rc, o5, e5 = gs.run(gexe, [3, iters, 3], timeout=300)
+                    chk.coverage["tsan_generated_code"] = {"one_grower_one_size_reader_race": "data race" in e4, "result": o4,
+                                                           "growers_and_size_readers_race": "data race" in e5, "result3": o5}
+                    chk.count_case(("tsan-generated", "g1s1"), True, None)
+                    chk.count_case(("tsan-generated", "g3s3"), True, None)
+                    if "data race" in e4 or "data race" in e5:
+                        e2 = e2 if "data race" in e2 else (e4 if "data race" in e4 else e5)
+                races1 = sorted(set(re.findall(r"w2c2_base\.h:(\d+)", e1))) if "data race" in e1 else []
+                size_race = "data race" in e2      # (also set when the generated-code run raced, see above)
+                chk.coverage["tsan"] = {"grow_only_race": "data race" in e1, "grow_only_race_lines": races1[:6],
+                                        "grow_only_result": o1, "one_grower_one_size_reader_race": size_race,
+                                        "one_grower_one_size_reader_result": o2,
+                                        "growers_and_size_readers_race": "data race" in e3,
+                                        "growers_and_size_readers_result": o3}
+                for k in ("g3", "g1s1", "g3s3"):
+                    chk.count_case(("tsan", k), True, None)
                 if size_race:
                     chk.violation(
                         "memory-size-unlocked-read-race",
-                        "memory.size is emitted as a plain read of `pages` (c.c wasmCWriteMemorySizeExpr) while wasmMemoryGrow "
-                        "writes `pages` under the mutex: a C-level data race on the descriptor (ThreadSanitizer reports it; "
-                        "model: size_query_race_counterexample); benign on the supported targets",
+                        "ThreadSanitizer reports a data race between wasmMemorySize (memory.size) and wasmMemoryGrow on a shared "
+                        "memory: `pages` is read without the memory's mutex while grow writes it",
                         {"harness": "tools/harness/grow_sched.c (-fsanitize=thread -DGROW_FREE_RUNNING)",
                          "args": ["stress", 1, iters, 1], "tsan_excerpt": e2[:1500],
+                         "replay_cmd": "python3 tools/check.py C18 --replay <this file>"}, True)
+                elif "data race" in e1 or "data race" in e3:
+                    chk.violation(
+                        "grow-descriptor-data-race",
+                        "ThreadSanitizer reports a data race on the descriptor of a shared memory between concurrent "
+                        f"wasmMemoryGrow calls (w2c2_base.h lines {races1[:6]})",
+                        {"harness": "tools/harness/grow_sched.c (-fsanitize=thread -DGROW_FREE_RUNNING)",
+                         "args": ["stress", 3, iters, 0], "tsan_excerpt": (e1 if "data race" in e1 else e3)[:1500],
                          "replay_cmd": "python3 tools/check.py C18 --replay <this file>"}, True)
             except Exception as e:
                 chk.coverage["tsan"] = "not run: " + str(e)[-200:]
@@ -426,6 +469,9 @@ def run(tier):
     chk.coverage["traces_validated_against_impl"] = len(real_out) + len(sreal)
     # model verdict vs what the real code showed
     if status:
+        if status.get("rulsize") == "0" and not any(v["key"] == "memory-size-unlocked-read-race" for v in chk.violations):
+            broken.append({"kind": "verdict", "msg": "regenerated wasmMemorySize fails the lock-discipline check "
+                           "(ReadsUnderLock Gen.sizeSteps = false) but neither the emitted code nor TSan showed an unlocked read"})
         if status.get("rul") == "0" and not any(v["key"] == "grow-reads-before-lock" for v in chk.violations) \
                 and not any(k == "grow-reads-before-lock" for k, _ in chk.known_hit):
             broken.append({"kind": "verdict", "msg": "regenerated wasmMemoryGrow fails the lock-discipline check "
@@ -448,12 +494,21 @@ def replay(path):
         repo = vlib.copy_repo(os.path.join(d, "repo"))
         inc = os.path.join(repo, "w2c2")
         key = r.get("key")
-        if key == "memory-size-unlocked-read-race":
+        if key in ("memory-size-unlocked-read-race", "grow-descriptor-data-race"):
+            bad = False
+            if "module" in r:
+                import opmods
+                gexe, gtext = gs.build_generated(opmods.build_w2c2(repo, d), inc, os.path.join(d, "genmod"))
+                em = gs.emitted_statements(gtext)
+                print(f"w2c2 emits for memory.size on a shared memory: si0={em.get('memory.size')};")
+                bad = not (em.get("memory.size") or "").startswith("wasmMemorySize(")
+                rc, out, err = gs.run(gexe, [1, 3000, 1], timeout=300)
+                bad = bad or "data race" in err
             exe = gs.build(inc, d, "grow_tsan", ["-fsanitize=thread", "-DGROW_FREE_RUNNING"])
             rc, out, err = gs.run(exe, r["args"], timeout=300)
-            bad = "data race" in err and "memorySize" in err
-            print(f"replay {r['args']}: TSan {'reports' if bad else 'does not report'} the race on `pages`")
-            return 1 if bad else 0
+            race = "data race" in err
+            print(f"replay {r['args']}: TSan {'reports' if race else 'does not report'} a data race on the descriptor")
+            return 1 if (bad or race) else 0
         exe = gs.build(inc, d)
         args = r["args"]
         rc, out, err = gs.run(exe, args)
